@@ -1382,3 +1382,19 @@ mod tests {
         block.encode_to_vec()
     }
 }
+
+#[cfg(eigerco_lumina_verif)]
+pub(crate) mod verif_hooks {
+    use super::*;
+
+    /// Same as the `#[cfg(test)]` `Daser::mocked`.
+    pub(crate) fn mocked() -> (Daser, crate::test_utils::MockDaserHandle) {
+        let (cmd_tx, cmd_rx) = mpsc::channel(16);
+        let daser = Daser {
+            cmd_tx,
+            cancellation_token: CancellationToken::new(),
+            join_handle: spawn(async {}),
+        };
+        (daser, crate::test_utils::MockDaserHandle { cmd_rx })
+    }
+}
